@@ -7,6 +7,11 @@ t4.cooldowns, t2.lancedb.partitions, budgets, flags).  An input is ``{}`` plus a
 
   set   a node of the tree (leaf or whole section) to one value of the 17-value alphabet
         {None, True, 0, -1, 1, .5, NaN, +inf, -inf, 10**400, "", "x", "1", [], [1], {}, {"k":1}}
+        plus, for every node, the boolean False (the base alphabet holds True only) and, for every node with a documented
+        FINITE domain, each member of that domain (DOMAIN alphabet, read off the clause-(d) table: the members of every
+        enumeration; for list-valued enumerations each one-member list and the list of all members).  The base
+        alphabet holds only strings that are outside every enumeration, so without DOMAIN no enumeration leaf would
+        ever be accepted with a non-default member and no engine branch selected by one would ever run.
   key   add, in the dict at one level of the tree, one special key (value 1): an unknown string key, a
         near-miss of an allowed key, or one of the non-string keys 5, None, ("a","b")
   root  replace the whole input by a non-dict root
@@ -20,9 +25,10 @@ t4.cooldowns, t2.lancedb.partitions, budgets, flags).  An input is ``{}`` plus a
         Messages are one per line (LF-joined in the ConfigError text, one stdout line each in the CLI); a
         shape that cuts or rewrites messages at any other code point no longer reports the same messages.
 
-quick: k <= 1 (every single deviation; echo keys with all of ECHO, echo values with the 5 representatives ECHO_REPS).
-thorough: additionally every pair of *sibling* deviations (same parent dict, full alphabet x full alphabet), every pair of deviations below the same top-level section that are not
-siblings (reduced 8-value alphabet), every single deviation x every value of ``version``, echo values with the full
+quick: k <= 1 (every single deviation incl. False and the DOMAIN members; echo keys with all of ECHO, echo values with the 5 representatives ECHO_REPS).
+thorough: additionally every pair of *sibling* deviations (same parent dict, full alphabet + False + DOMAIN members on both sides,
+so a non-default enumeration member meets every value of every sibling knob), every pair of deviations below the same
+top-level section that are not siblings (reduced 8-value alphabet + DOMAIN members), every single deviation x every value of ``version``, echo values with the full
 ECHO alphabet, and every (allowed key + ECHO member) x every sibling node x the reduced alphabet (an echoed message
 next to a second message).
 
@@ -413,7 +419,7 @@ def build(devs):
 def singles() -> List[List[dict]]:
     out: List[List[dict]] = [[]]
     for p in NODES:
-        for v in VALUES:
+        for v in node_values(p, VALUES):
             out.append([dev_set(p, v)])
     for sec in sorted(TREE):
         for tok in KEY_TOKENS:
@@ -484,19 +490,19 @@ def expand_group(item) -> List[List[dict]]:
         def devs(x):
             sec, (t, what) = x
             if t == "n":
-                return _devs_of_node(tuple(what), VALUES)
+                return _devs_of_node(tuple(what), node_values(what, VALUES))
             return [dev_key(sec, what)]
         for da in devs(a):
             for db in devs(b):
                 if compatible(da, db):
                     out.append([da, db])
     elif kind == "sec":
-        for va in VALUES_REDUCED:
-            for vb in VALUES_REDUCED:
+        for va in VALUES_REDUCED + DOMAIN.get(tuple(a), []):
+            for vb in VALUES_REDUCED + DOMAIN.get(tuple(b), []):
                 out.append([dev_set(a, va), dev_set(b, vb)])
     elif kind == "ver":
-        for v in VALUES:
-            for vv in VALUES:
+        for v in node_values(a, VALUES):
+            for vv in node_values(("version",), VALUES):
                 da, db = dev_set(a, v), dev_set(("version",), vv)
                 if compatible(da, db):
                     out.append([da, db])
@@ -508,7 +514,7 @@ def expand_group(item) -> List[List[dict]]:
                     out.append([da, db])
     elif kind == "verkey":
         for tok in KEY_TOKENS:
-            for vv in VALUES:
+            for vv in node_values(("version",), VALUES):
                 da, db = dev_key(a, tok), dev_set(("version",), vv)
                 if compatible(da, db):
                     out.append([da, db])
@@ -704,6 +710,7 @@ def _rng(lo=None, hi=None, lo_open=False, hi_open=False, integer=False):
 def _enum(*allowed):
     def pred(v):
         return None if (isinstance(v, str) and v in allowed) else "enum"
+    pred.members = tuple(allowed)  # the documented domain; also feeds the DOMAIN alphabet (see _domains)
     return pred
 
 
@@ -773,6 +780,8 @@ RANGES: List[Tuple[Tuple[str, ...], Any]] = [
     (("t2", "quality", "aliasing", "map_path"), _nonempty_str),
     (("t2", "quality", "aliasing", "max_expansions_per_token"), _rng(0, **I)),
     (("t2", "quality", "lexical", "bm25", "doclen_floor"), _rng(0, **I)),
+    (("t2", "quality", "lexical", "stopwords"), _enum("none", "en-basic")),
+    (("t2", "quality", "fusion", "mode"), _enum("score_interp")),
     (("t2", "quality", "fusion", "score_norm"), _enum("zscore", "minmax")),
     (("t2", "quality", "mmr", "lambda"), _rng(0, 1)),
     (("t2", "quality", "mmr", "k"), _rng(1, **I)),
@@ -853,6 +862,53 @@ RANGES: List[Tuple[Tuple[str, ...], Any]] = [
     (("perf", "snapshots", "every_n_turns"), _rng(1, **I)),
     (("perf", "parallel", "max_workers"), _rng(0, **I)),
 ]
+
+
+# ------------------------------------------------------------------------------------------------
+# DOMAIN alphabet: every leaf with a documented FINITE domain takes every member of that domain
+# ------------------------------------------------------------------------------------------------
+# list-valued leaves whose elements come from a documented finite set (clause (d) checks the same sets)
+LIST_DOMAINS: Dict[Tuple[str, ...], Tuple[str, ...]] = {
+    ("t4", "cache", "namespaces"): ("t2:semantic",),
+    ("perf", "t2", "reader", "partitions", "by"): ("owner", "quarter"),
+}
+BOOL_OTHER = "false"  # the member of the boolean domain that the base alphabet lacks (it has True only)
+VAL[BOOL_OTHER] = lambda: False
+
+
+def _domains() -> Dict[Tuple[str, ...], List[str]]:
+    """node -> value names of the documented members of its domain, read off the clause-(d) table: each member of an
+    enumeration, and for list-valued enumerations each one-member list and the list of all members.  The base alphabet
+    only holds values that are OUTSIDE every enumeration ("x", "1", ""), so without these an enumeration leaf is
+    never accepted with anything but its default, and no engine branch selected by a non-default member ever runs."""
+    nodeset = set(NODES)
+    dom: Dict[Tuple[str, ...], List[str]] = {}
+    for path, pred in RANGES:
+        ms = getattr(pred, "members", None)
+        if not ms or path not in nodeset:
+            continue
+        for m in ms:
+            name = "enum:" + m
+            VAL[name] = (lambda m=m: m)
+            if name not in dom.setdefault(path, []):
+                dom[path].append(name)
+    for path, ms in LIST_DOMAINS.items():
+        if path not in nodeset:
+            continue
+        combos = [[m] for m in ms] + ([list(ms)] if len(ms) > 1 else [])
+        for c in combos:
+            name = "enumlist:" + "|".join(c)
+            VAL[name] = (lambda c=c: list(c))
+            dom.setdefault(path, []).append(name)
+    return dom
+
+
+DOMAIN = _domains()
+
+
+def node_values(p, base) -> List[str]:
+    """the value alphabet of one node: the given base alphabet + the other boolean + the members of its documented domain"""
+    return list(base) + [BOOL_OTHER] + DOMAIN.get(tuple(p), [])
 
 
 def check_ranges(norm) -> List[Tuple[str, str]]:
@@ -1635,7 +1691,8 @@ def _collect_accepted(accdir) -> List[List[dict]]:
 def run(run: Run) -> None:
     _engine_mods()
     run.rule = ("inputs = {} plus <=1 (quick) / <=2 (thorough) deviations over the v1 key tree of configs/validate.py "
-                "(set node to one of 17 values | add unknown / near-miss / non-string key at a dict level | non-dict root), plus "
+                "(set node to one of 17 values, to False, or - for each of the %d nodes with a documented finite domain - to each of its "
+                "members (every enumeration member; one-member and full lists for list-valued enumerations; %d values in all) | add unknown / near-miss / non-string key at a dict level | non-dict root), plus "
                 "every single 'echo' deviation: user text that the messages echo (an unknown key at every dict level with value 1 "
                 "and -1, an allowed key + suffix at every level, every node set to a string and to a one-string list) carrying one "
                 "member of the text-layer alphabet ECHO = 11 Unicode line boundaries, 3 further whitespace cut points, 4 "
@@ -1644,15 +1701,19 @@ def run(run: Run) -> None:
                 "every input goes through 4 API shapes + script main() (+ --strict); non-trivial = a deviating input that is "
                 "rejected, or accepted with a normalised config different from the default one; every distinct accepted "
                 "normalised config runs 2 real turns on each of the worlds W0/W1/W2 (quick tier: of the accepted configs that carry an "
-                "ECHO member only those with CR, '{' or '%s'; thorough: all)")
+                "ECHO member only those with CR, '{' or '%%s'; thorough: all)") % (len(DOMAIN), sum(len(v) for v in DOMAIN.values()))
     run.assume("only JSON/YAML-shaped inputs (dict/list/scalars, tuple as the only non-YAML key type); objects with __dict__ are not enumerated")
     run.assume("in-process script main() reads the input through a seam on its _load_config (no file); the real file/YAML path is covered by the CLI subprocess subset only")
     run.assume("clause (d) checks the constraints for which the validator documents an error message; out-of-range values that are documented as warnings only (t2.quality.fusion.alpha_semantic) and keys without any documented constraint (t2.owner_scope, surface_method, budgets.*, flags.*, t2.quality.lexical.bm25.{k1,b}) are not range-checked")
-    run.assume("clause (e): worlds W0 (empty state), W1 (one graph, 4 episodes), W2 (two graphs incl. cycle/self-loop/parallel/zero/negative/unknown-relation edges, 6 episodes, GEL edges); 2 turns, texts 'apple', 'pear fig'; episode vectors are embedded with the config's k_surface; plans carry 4 scripted deltas; LLM / LanceDB / zstd are not reachable from the alphabet")
+    run.assume("clause (e): worlds W0 (empty state), W1 (one graph, 4 episodes), W2 (two graphs incl. cycle/self-loop/parallel/zero/negative/unknown-relation edges, 6 episodes, GEL edges); 2 turns, texts 'apple', 'pear fig'; episode vectors are embedded with the config's k_surface; plans carry 4 scripted deltas; the enumeration members that name optional back ends (t2.backend=lancedb, t3.backend / t3.reflection.backend=llm, t3.llm.provider=ollama, perf.snapshots.compression=zstd) ARE set, each alone (quick) or next to one sibling (thorough), and the turn must still complete; no LanceDB table, LLM endpoint or fixture file exists in the worlds, and t3_deliberate is the scripted rule-based planner in every run")
     run.assume("clause (e) runs once per distinct normalised config (the engine only sees the normalised config)")
     run.notes["tree_sections"] = len(TREE)
     run.notes["tree_nodes"] = len(NODES)
     run.notes["value_alphabet"] = VALUES
+    run.notes["domain_alphabet"] = {".".join(p): v for p, v in sorted(DOMAIN.items())}
+    run.assume("DOMAIN alphabet: the finite domains are those of the clause-(d) table (enumerations the validator documents in an "
+               "error message, plus the two list-valued ones t4.cache.namespaces and perf.t2.reader.partitions.by); free-text "
+               "leaves whose meaning the engine interprets (t2.tiers members, t2.owner_scope, surface_method) get no members")
     run.notes["echo_alphabet"] = {k: ascii(v) for k, v in ECHO.items()}
     run.notes["echo_value_members"] = list(ECHO) if run.thorough else ECHO_REPS
     run.assume("messages are compared as the multiset of LF-separated, whitespace-trimmed lines of each shape's error list / "
